@@ -14,18 +14,32 @@ and spell out the leftmost / ordered-choice semantics of `re.search` / `re.split
 obligations (`Ural.Props.C15.redirect_patterns_shape`) pin the frame
 `(?:^|[?&])(` keys `)=([^&]+)`, the flags, and the alphabet of the literals.
 
-The function first cleans its argument the way the url functions clean their input
-(`cleanedUrl` = `CONTROL_CHARS_RE.sub("", url).strip()`, lines 40-43) and looks for its hints in
-the cleaned string; the argument itself is what it returns when nothing is followed.
+Since /repo 0c9bfa3 (FX-C15-0c9bfa3) the module has two public functions:
 
-`inferTarget c` is the value of the Python variable `target` at line 91 as a function of the
-*cleaned* url `c` (`None` ↦ `none`; the two early `return original_url` — the `q` special case
-and the `ValueError` of `urljoin` — also give `none`, which leads to the same
-`return original_url`).  `inferStep` is `infer_redirection(url, recursive=False)`, `infer` is
-`infer_redirection(url)`; its recursion is the one of the code
-(`return infer_redirection(target, recursive=True)` under the guard
-`len(target) < len(cleaned url)`), which — the cleaned url being no longer than the url — is
-what makes the definition well-founded.
+* `infer_redirection_target(url)` (lines 25-84) — ONE hop: clean the argument the way the url
+  functions clean their input (`cleanedUrl` = `CONTROL_CHARS_RE.sub("", url).strip()`, line 33),
+  look for a hint in the cleaned string, return the target it designates, or `None` when nothing
+  is found, the target cannot be built, or it is not strictly shorter than the cleaned url
+  (the guard of lines 81-82);
+* `infer_redirection(url, recursive=True)` (lines 87-113) — a `while True` LOOP over it:
+  `target = infer_redirection_target(url)`; `None` → `return url` (the argument of this turn
+  of the loop, as it is — not its cleaned form); `not recursive` → `return target`; else
+  `url = target` and again.  (Before 0c9bfa3 the function called itself once per hop and an
+  url nesting about a thousand hops raised `RecursionError`; the model never had that defect —
+  a Lean function is total — which is how the theorem audit found it: `infer_total` promised
+  a result the code did not deliver.)
+
+`inferTarget c` is the value of the Python variable `target` when line 81 is reached, as a
+function of the *cleaned* url `c` (`None` ↦ `none`; the two early `return None` — the `q`
+special case, line 50, and the `ValueError` of `urljoin`, line 73 — also give `none`).
+`followed target c` adds the guard of lines 81-84, `targetOf target url` the cleaning of line
+33: `inferRedirectionTarget = targetOf inferTarget` is `infer_redirection_target`.
+`stepOf target` / `inferStep` is one turn of the loop (`infer_redirection(url, recursive=False)`),
+`inferOf target` / `infer` is the loop (`recursive=True`) written as the tail recursion it is:
+every turn continues on a string strictly shorter than the cleaned url, which — the cleaned url
+being no longer than the url — makes the definition well-founded (`termination_by url.length`).
+`stepOf_eq_hop` / `inferOf_eq_hop` (Props/C15.lean) restate both through `targetOf` — literally
+the two `return`s and the `url = target` of the loop.
 -/
 namespace Ural
 open Ural.Py
@@ -112,7 +126,7 @@ def redirectSearch (url : Str) : Option (Str × Str) := redirectSearchFrom url t
 def httpsPrefix : Str := "https://".toList
 def httpPrefix : Str := "http://".toList
 
-/-- `CONTROL_CHARS_RE.sub("", url).strip()` — infer_redirection.py:40-43: the string the hints
+/-- `CONTROL_CHARS_RE.sub("", url).strip()` — infer_redirection.py:31-33: the string the hints
 are searched in -/
 def cleanedUrl (url : Str) : Str := strip (UrlParts.stripControl url)
 
@@ -127,14 +141,14 @@ theorem cleanedUrl_length_le (url : Str) : (cleanedUrl url).length ≤ url.lengt
   refine Nat.le_trans (length_rstrip_le _) ?_
   exact Nat.le_trans (List.Sublist.length_le (List.dropWhile_sublist _)) (List.length_filter_le _ _)
 
-/-- the join of a relative target — infer_redirection.py:73-83 (`none` = `ValueError`);
-`url` is the cleaned url -/
+/-- the join of a relative target — infer_redirection.py:63-73 (`none` = `ValueError`, the
+`return None` of line 73); `url` is the cleaned url -/
 def joinRelative (url pt : Str) : Option Str :=
   if (protoLen url).isSome then urljoin url pt
   else (urljoin (httpPrefix ++ url) pt).map (fun t => t.drop 7)
 
 /-- what the hint `(key, value)` found in the cleaned `url` designates —
-infer_redirection.py:57-87 -/
+infer_redirection.py:47-77 -/
 def hintTarget (url key value : Str) : Option Str :=
   if key = ['q'] && !(contains url "/url?q=".toList) && !(contains url "/redirect".toList) then none
   else
@@ -145,8 +159,8 @@ def hintTarget (url key value : Str) : Option Str :=
     else if contains url "youtube.com/redirect?".toList then some (httpsPrefix ++ pt)
     else none
 
-/-- the variable `target` when line 91 is reached (or `none` if the function has returned
-before), as a function of the cleaned url -/
+/-- the variable `target` when line 81 is reached (or `none` if `infer_redirection_target` has
+returned `None` before), as a function of the cleaned url — infer_redirection.py:35-77 -/
 def inferTarget (url : Str) : Option Str :=
   match domainSplit url with
   | some tail => if tail ≠ [] then some (httpsPrefix ++ tail) else none
@@ -155,15 +169,34 @@ def inferTarget (url : Str) : Option Str :=
     | none => none
     | some (key, value) => hintTarget url key value
 
-/-- one guarded step for an arbitrary target function (of the cleaned url): follow the target
-only when it is strictly shorter than the cleaned url, else return the argument itself —
-infer_redirection.py:40-43, 89-97 -/
+/-- the guard of infer_redirection.py:79-84, as a function of the CLEANED url `c`: the target the
+extraction designates, provided it is strictly shorter than `c`; `none` = `return None` -/
+def followed (target : Str → Option Str) (c : Str) : Option Str :=
+  match target c with
+  | some t => if t.length < c.length then some t else none
+  | none => none
+
+/-- `infer_redirection_target(url)` for an arbitrary extraction — infer_redirection.py:25-84:
+clean (line 33), extract, guard (lines 81-84) -/
+def targetOf (target : Str → Option Str) (url : Str) : Option Str :=
+  followed target (cleanedUrl url)
+
+/-- **`infer_redirection_target(url)`** — the public one-hop function (`None` ↦ `none`) -/
+def inferRedirectionTarget (url : Str) : Option Str := targetOf inferTarget url
+
+/-- one turn of the loop of `infer_redirection` for an arbitrary target function (of the cleaned
+url) — infer_redirection.py:105-111: follow the target only when it is strictly shorter than the
+cleaned url, else return the argument itself.  `stepOf target url = (targetOf target url).getD url`
+(`Props.C15.stepOf_eq_hop`). -/
 def stepOf (target : Str → Option Str) (url : Str) : Str :=
   match target (cleanedUrl url) with
   | some t => if t.length < (cleanedUrl url).length then t else url
   | none => url
 
-/-- the recursion of the code for an arbitrary target function -/
+/-- the loop of `infer_redirection` (infer_redirection.py:104-113, `recursive=True`) for an
+arbitrary target function, as a tail recursion: `url = target` and again.
+`inferOf target url = match targetOf target url with | some t => inferOf target t | none => url`
+(`Props.C15.inferOf_eq_hop`). -/
 def inferOf (target : Str → Option Str) (url : Str) : Str :=
   match target (cleanedUrl url) with
   | some t => if t.length < (cleanedUrl url).length then inferOf target t else url
@@ -182,7 +215,7 @@ def infer_redirection (url : Str) (recursive : Bool := true) : Str :=
   if recursive then infer url else inferStep url
 
 /-- executable form of `infer` for the driver and for `decide` (well-founded definitions do
-not reduce in the kernel): the same recursion driven by fuel; `inferFuel_eq` proves it equal
+not reduce in the kernel): the same loop with a bound on the number of turns; `inferFuel_eq` proves it equal
 to `infer` as soon as the fuel is at least the length of the url -/
 def inferFuel (target : Str → Option Str) : Nat → Str → Str
   | 0, url => url
